@@ -28,6 +28,12 @@ a concrete CPython execution can see there (FlowN1) and adds nothing outside the
 (FlowN2).  Every function is rendered to Python, checked by the real visitor and executed under real CPython for every
 argument object and choice of flags; TLC first compares its execution model with the recorded runs, then judges the REAL
 inferred types and compares them with the model.
+
+Match statements with several cases and guards (spec/MatchCases.tla, spec/trace/MatchCasesTrace.tla): visit_Match's per-case
+bookkeeping -- the subject narrowed by the pattern and the guard inside a case, the inverted AND of pattern and guard
+constraints carried to the later cases and to the code after the match, the implicit else dropped when the subject is
+exhausted -- against a concrete execution of the match for every object and every outcome of the opaque guards; reads of x in
+guard position, in every case body and after the match; replayed through the real visitor and real CPython.
 """
 from __future__ import annotations
 
